@@ -171,8 +171,14 @@ def run_case(seed, i, tier):
         n0 *= 5
     pol = rng.choice(("starve:0", "starve:0", "starve:2", "random", "rr", "first:2", "pct"))
     second = rng.random() < 0.3
-    banner = False      # (a first line in another notation: how such a file is cut into messages is not defined by any property -- see DESIGN 9.9)
-    windowed = container == "plain" and rng.random() < 0.3 and not dense
+    # a start-up line of another component at the head of the file, in another notation than the log's own: with a block zero
+    # that holds some ninety lines the log's own notation wins the analysis and the banner is a preamble (not printed). Only
+    # in this regime: with a block zero of one or two lines the banner's notation would win and the rest be its continuation
+    banner = (i % 20 == 9) and not dense and fmt == "slash"      # (log in the generator's usual notation, banner in ISO 8601: the other way round the banner's pattern, earlier in s4's table, wins)
+    if banner:
+        bsz, style, n0 = rng.choice((4096, 8192)), "short", 30
+        container = rng.choice(("gz", "bz2", "lz4", "plain"))
+    windowed = container == "plain" and rng.random() < 0.3 and not dense and not (i % 20 == 9)
     wfrac = rng.choice((0.1, 0.5, 0.9))
     cr = CaseResult()
     if dense:
@@ -188,6 +194,8 @@ def run_case(seed, i, tier):
         content, msgs, maxmsg = gen_log(lrng, bsz, style, n0 * mult, fmt, banner)
         stored, descr = world.random_container(core.random.Random(lrng_seed + 1), container, content, 0, "big.log")
         path = "big.log" + world.SUFFIX[container]
+        if banner:
+            msgs = msgs[1:]
         srcs = [merge.Source(path, "text", msgs, stored, content, container, descr)]
         if second:
             c2, m2, _ = gen_log(core.random.Random(lrng_seed + 2), bsz, "short", 6)
